@@ -67,6 +67,57 @@ theorem relabel_none_iff (s : VState) (h : s.Inv) (m : Dict) (hk : (keys m).Nodu
   · simp [e, hn]
   · simp [h1, hr]
 
+/-! ### for a mapping whose keys are all variables, "rejected" is exactly "would merge" -/
+
+theorem not_nodup_map_of_collision {α β : Type} (f : α → β) : ∀ (l : List α) (a b : α),
+    a ∈ l → b ∈ l → a ≠ b → f a = f b → ¬ (l.map f).Nodup
+  | [], _, _, ha, _, _, _ => by cases ha
+  | x :: t, a, b, ha, hb, hne, e => by
+    intro hnd
+    rw [List.map_cons, List.nodup_cons] at hnd
+    rcases List.mem_cons.mp ha with rfl | ha' <;> rcases List.mem_cons.mp hb with rfl | hb'
+    · exact hne rfl
+    · exact hnd.1 (e ▸ List.mem_map.mpr ⟨b, hb', rfl⟩)
+    · exact hnd.1 (e ▸ List.mem_map.mpr ⟨a, ha', rfl⟩)
+    · exact not_nodup_map_of_collision f t a b ha' hb' hne e hnd.2
+
+theorem exists_shared_val : ∀ (d : Dict), (keys d).Nodup → ¬ (vals d).Nodup →
+    ∃ k1 k2 v, k1 ≠ k2 ∧ (k1, v) ∈ d ∧ (k2, v) ∈ d
+  | [], _, h => absurd List.nodup_nil h
+  | (a, b) :: d, hk, h => by
+    simp only [keys_cons, List.nodup_cons] at hk
+    simp only [vals_cons, List.nodup_cons] at h
+    by_cases hb : b ∈ vals d
+    · have h := hb
+      obtain ⟨k, hkm⟩ := exists_of_mem_vals h
+      refine ⟨a, k, b, ?_, List.mem_cons_self, List.mem_cons_of_mem _ hkm⟩
+      intro e; exact hk.1 (e ▸ mem_keys_of_mem hkm)
+    · have h : ¬ (vals d).Nodup := fun hn => h ⟨hb, hn⟩
+      obtain ⟨k1, k2, v, hne, h1, h2⟩ := exists_shared_val d hk.2 h
+      exact ⟨k1, k2, v, hne, List.mem_cons_of_mem _ h1, List.mem_cons_of_mem _ h2⟩
+
+/-- a rejected mapping whose keys are all variables would merge two labels -/
+theorem merge_of_rejected (m : Dict) (hk : (keys m).Nodup) (l : List Label) (hsub : ∀ k ∈ keys m, k ∈ l)
+    (hr : Rejected m l) : ¬ (l.map (sigma m)).Nodup := by
+  rcases hr with h | ⟨v, hv, hl, hnk⟩
+  · obtain ⟨k1, k2, v, hne, h1, h2⟩ := exists_shared_val m hk h
+    refine not_nodup_map_of_collision _ l k1 k2 (hsub _ (mem_keys_of_mem h1)) (hsub _ (mem_keys_of_mem h2)) hne ?_
+    simp only [sigma, lookup_of_mem hk h1, lookup_of_mem hk h2, Option.getD_some]
+  · obtain ⟨k, hkm⟩ := exists_of_mem_vals hv
+    have hkv : k ≠ v := fun e => hnk (e ▸ mem_keys_of_mem hkm)
+    refine not_nodup_map_of_collision _ l k v (hsub _ (mem_keys_of_mem hkm)) hl hkv ?_
+    simp only [sigma, lookup_of_mem hk hkm, (lookup_eq_none_iff m v).2 hnk, Option.getD_some, Option.getD_none]
+
+/-- **exactly**: when every key of the mapping is a variable, `_relabel` raises (changing nothing) if and only if
+    the mapping would merge two labels -/
+theorem relabel_none_iff_merge (s : VState) (h : s.Inv) (m : Dict) (hk : (keys m).Nodup)
+    (hsub : ∀ k ∈ keys m, k ∈ s.abs) :
+    s.relabel m = none ↔ ¬ (s.abs.map (sigma m)).Nodup := by
+  constructor
+  · intro hn
+    exact merge_of_rejected m hk s.abs hsub ((relabel_none_iff s h m hk).1 hn)
+  · intro hm; exact (relabel_rejects_merge s h m hk hm).1
+
 /-! ### `_relabel_as_integers` returns the mapping that restores the labels -/
 
 theorem keys_erase_sub [DecidableEq α] (m : AMap α β) (k x : α) (h : x ∈ (m.erase k).map Prod.fst) :
